@@ -170,4 +170,15 @@ CLAIMED["C20"] = {
     "note": BASE_NOTE + "pandas dtype inference / null representation are observed after canonicalisation, not modelled.",
     "technique": "Coq proof (filter/sort/map characterisation) + differential correspondence with null canonicalisation",
 }
+CLAIMED["C14"] = {
+    "text": "Theorems (closed): on the object-graph machine (identities as heap indices; Line/Field objects shared by all registers of a "
+            "class) the separation invariant -- one owner per list object, one file per container -- holds initially, is preserved by "
+            "every framework call and user mutation, hence along every interleaving; frame theorems: an operation not addressing a "
+            "register / handed-out list / file leaves its observation unchanged; reads install a fresh list that depends on the text only, "
+            "writes render the register's own data and change no data; File() gets a fresh one-placeholder container. Refuted for the code "
+            "as found. Tied to the implementation by complete short interleavings and random ones of length <= 25, comparing every "
+            "object's observation and the identity partition after every step, plus an isolated replay of each object's own operations.",
+    "note": BASE_NOTE + "Block/section families are covered for the fresh-file part by the oracle; the interleaving machine uses register files.",
+    "technique": "Coq proof (separation invariant + frame lemmas over a heap-indexed object graph, induction over interleavings) + differential correspondence incl. identity partitions",
+}
 NOT_APPLICABLE = {}
